@@ -359,8 +359,8 @@ def check_output(ver, req_tokens, d):
 
 
 def known_class(ver, req_tokens, d):
-    """class of the open finding (known_findings.d/C02.json, C13.json): an unquoted string whose single line exceeds the
-    line limit comes back quoted.  (The classes of the five writer defects repaired by 0543b02, 634c0d5, 098a48f, bf64cbf,
+    """class of the open finding (known_findings.d/C02.json, C13.json): an unquoted string — or an unquoted number — whose
+    single line exceeds the line limit can only be written as a text field and comes back as a quoted string.  (The classes of the five writer defects repaired by 0543b02, 634c0d5, 098a48f, bf64cbf,
     40af3df are gone: a recurrence is a violation.)"""
     if d is None or d.get("b") != 0:
         return None
@@ -369,10 +369,6 @@ def known_class(ver, req_tokens, d):
     why0 = check_output(ver, req_tokens, d)
     if why0 is None:
         return None
-    if why0.startswith("output has a line of") or why0 == "re-parse reported error(s) %d" % CODES["CIF_OVERLENGTH_LINE"]:
-        # write_numb prints an unquoted number on one line however long its text is
-        if any(k == "M" and q == 0 and len(t) > LINE for k, q, t in request_strings(req_tokens)[1]):
-            return "unquoted-number-longer-than-a-line"
     if d.get("prc") == 0 and d.get("errs") == "-" and equivalent(d.get("orig", ["-"]), d.get("back", ["-"]), tolerate=True) is None:
         # everything else of the oracle holds?
         d2 = dict(d)
